@@ -23,6 +23,12 @@ pub struct Case {
     /// backup is going to write (what a killed write of the same content leaves behind).
     #[serde(default)]
     pub leftover: Option<u16>,
+    /// If set: before the backup, the i-th block file that an earlier version refers to is
+    /// deleted (an archive that is already damaged when the storage errors strike). Entries
+    /// of the *earlier* versions that name that block are then dangling by construction and
+    /// are not judged; everything the new version records is.
+    #[serde(default)]
+    pub missing: Option<u16>,
 }
 
 fn strategy(tier: Tier) -> BoxedStrategy<Case> {
@@ -38,8 +44,9 @@ fn strategy(tier: Tier) -> BoxedStrategy<Case> {
             n_multi..=n_multi,
         ),
         prop::option::weighted(0.4, any::<u16>()),
+        prop::option::weighted(0.25, any::<u16>()),
     )
-        .prop_map(|(sc, multi, leftover)| Case { sc, multi, leftover })
+        .prop_map(|(sc, multi, leftover, missing)| Case { sc, multi, leftover, missing })
         .boxed()
 }
 
@@ -49,6 +56,11 @@ fn kind_of(i: u8) -> EK {
 
 /// Run one backup under `plan` from the pristine state and judge it.
 fn check_plan(base: &Base, sc: &Scenario, cx: &Cx, plan: Plan, n: &mut u32) -> CaseResult {
+    check_plan_with(base, sc, cx, plan, n, None)
+}
+
+/// `gone`: hash of a block that was deleted before the backup (see `Case::missing`).
+fn check_plan_with(base: &Base, sc: &Scenario, cx: &Cx, plan: Plan, n: &mut u32, gone: Option<&str>) -> CaseResult {
     let w = &base.world;
     base.reset();
     let before = format::raw_tree(&w.arch);
@@ -82,6 +94,9 @@ fn check_plan(base: &Base, sc: &Scenario, cx: &Cx, plan: Plan, n: &mut u32) -> C
         for e in band.all_entries() {
             if e.kind != "File" {
                 continue;
+            }
+            if Some(*id) != new_id && gone.map_or(false, |g| e.addrs.iter().any(|a| a.hash == g)) {
+                continue; // an earlier version's entry that names the block removed beforehand
             }
             let bytes = match post.file_bytes(e) {
                 Ok(b) => b,
@@ -174,6 +189,27 @@ fn run(case: &Case, cx: &mut Cx) -> CaseResult {
             trace = base.backup_trace(sc.opts);
         }
     }
+    let mut gone: Option<String> = None;
+    if let Some(frac) = case.missing {
+        let pre = format::scan(&base.pristine);
+        let mut hashes: Vec<String> = pre
+            .bands
+            .values()
+            .flat_map(|b| b.all_entries().into_iter().flat_map(|e| e.addrs.iter().map(|a| a.hash.clone()).collect::<Vec<_>>()))
+            .collect();
+        hashes.sort();
+        hashes.dedup();
+        if !hashes.is_empty() {
+            let h = hashes[(frac as usize * hashes.len()) >> 16].clone();
+            let rel = format!("d/{}/{}", &h[..3], h);
+            for root in [&base.pristine, &base.world.arch] {
+                let _ = std::fs::remove_file(root.join(&rel));
+            }
+            gone = Some(h);
+            trace = base.backup_trace(sc.opts);
+        }
+    }
+    let gone = gone.as_deref();
     // (a basis reached by walking back over a wide id gap makes every run cost thousands of
     // operations: such scenarios get fewer plans in the quick tier)
     let long = trace.len() > 600;
@@ -191,7 +227,7 @@ fn run(case: &Case, cx: &mut Cx) -> CaseResult {
                 }
             }
             crate::engine::heartbeat();
-            let res = check_plan(&base, sc, cx, Plan::FailAtKey { key: l.key.clone(), kind }, &mut n);
+            let res = check_plan_with(&base, sc, cx, Plan::FailAtKey { key: l.key.clone(), kind }, &mut n, gone);
             evals += 1;
             if nontrivial_key(l) {
                 nontrivial += 1;
@@ -218,7 +254,7 @@ fn run(case: &Case, cx: &mut Cx) -> CaseResult {
                     }
                 }
                 crate::engine::heartbeat();
-                let res = check_plan(&base, sc, cx, Plan::FailAtIndices(m), &mut n);
+                let res = check_plan_with(&base, sc, cx, Plan::FailAtIndices(m), &mut n, gone);
                 evals += 1;
                 nontrivial += 1;
                 if let Err(f) = res {
@@ -241,7 +277,7 @@ fn run(case: &Case, cx: &mut Cx) -> CaseResult {
                 continue;
             }
         }
-        let res = check_plan(&base, sc, cx, Plan::FailAtIndices(m.clone()), &mut n);
+        let res = check_plan_with(&base, sc, cx, Plan::FailAtIndices(m.clone()), &mut n, gone);
         evals += 1;
         if m.len() >= 2 {
             nontrivial += 1;
@@ -256,6 +292,7 @@ fn run(case: &Case, cx: &mut Cx) -> CaseResult {
     cx.inner_nontrivial += nontrivial;
     cx.label_if(!base.world.bands.is_empty(), "has-previous-versions");
     cx.label_if(has_leftover, "zero-length-block-leftover");
+    cx.label_if(gone.is_some(), "a-block-of-an-earlier-version-already-missing");
     let combined_flushes = trace.iter().filter(|l| l.key.verb == V::Write && l.key.path.starts_with("d/")).count();
     cx.label_if(combined_flushes >= 3, "3+block-writes");
     Ok(())
